@@ -186,7 +186,7 @@ Probe(r) ==
   LET kd == KindOf(r.t) IN
   IF IntKind(kd) THEN r.i
   ELSE IF kd = "string" THEN Len(r.s)
-  ELSE IF kd \in {"slice", "map", "array"} THEN Len(r.es)
+  ELSE IF kd \in {"slice", "map"} THEN Len(r.es)
   ELSE IF kd = "struct" /\ r.t.k # "inst" /\ Len(r.es) > 0 /\ ~StructOf(r.t).fs[1].emb /\ IntKind(KindOf(StructOf(r.t).fs[1].t))
        THEN r.es[1].i
   ELSE 0
